@@ -23,11 +23,12 @@ SPEC = {
         "C12_hex3_WF", "C12_hex3_cells", "C12_hex3_darts",
         "C12_parse2_error_iff", "C12_parse3_error_iff", "C12_parse2_forms_agree", "C12_parse3_forms_agree",
         "C12_build2_forms_agree", "C12_build3_forms_agree",
-        "C12_build2_zero_count_panics", "C12_zero_count_fails", "C12_build2_partial", "C12_build2_ok",
+        "C12_build2_ok", "C12_build2_total", "C12_build2_split_total",
+        "C12_build2_zero_count_empty", "C12_build2_zero_count_forms", "C12_build3_zero_count_empty",
     ],
     "trusted_base": [
         "Lean 4.33 kernel; axioms propext, Classical.choice, Quot.sound only",
-        "tools/gen_lean.py (regex-level translator of the beta tables, hex offset arms and 2-D placement blocks of "
+        "tools/gen_lean.py (regex-level translator of the beta tables, hex offset arms, 2-D placement blocks and zero-count guards of "
         "grid.rs into Honeycomb/Gen/GridTables.lean; regenerated on every run, fails on unrecognised shapes)",
         "hand-written model Honeycomb/Model/Grid.lean (dart -> table row decoding, placement loops, parse_2d/parse_3d) "
         "tied to /repo by the hcmodel/hcimpl correspondence run over the exhaustive size box",
@@ -56,8 +57,6 @@ SPEC["not_proved"] = [
     "beta0,beta1,beta2 and the cell partition are proved); volume count validated on the box via iter_volumes",
     "floating point: all coordinate statements are over Rat; the tie uses dyadic values for which f64 is exact; "
     "ceil on non-representable quotients is outside (DESIGN.md par. 9)",
-    "zero cell count, 2-D: the property clause is FALSE today (known finding D6, proved negation "
-    "C12_build2_zero_count_panics / C12_zero_count_fails)",
 ]
 
 
@@ -610,34 +609,6 @@ def run(tier, seed):
 # ---------------------------------------------------------------------------------------------
 
 def matches(known, v):
-    """D6: `grid` call site, 2-D, some cell count = 0, outcome `panic` — and nothing else fails in
-    the case.  Any other failure mode of C12 (3-D panic, panic on positive counts, wrong mesh,
-    model/implementation disagreement) is not matched."""
-    m = known.get("matcher", {})
-    if m.get("kind") != "grid-zero-count-panic":
-        return False
-    if v.get("kind") != "oracle":
-        return False
-    rp = v.get("replay", {})
-    of = rp.get("oracle_failure") or ""
-    items = [x for x in of.split("; ") if x]
-    if not items or not all(x.startswith("zero-count-panic: ") for x in items):
-        return False
-    # re-derive from the raw transcript: every panicking line is a 2-D grid call with a zero count,
-    # and there is at least one
-    ins, outs = rp.get("input_lines", []), rp.get("impl_output", [])
-    if len(ins) != len(outs):
-        return False
-    hit = False
-    for a, b in zip(ins, outs):
-        if b != "panic":
-            continue
-        t = a.split()
-        if len(t) < 5 or t[0] != "grid" or int(t[1]) != m.get("dim", 2) or t[4] not in ("ncl", "nl", "all", "n"):
-            return False
-        dim = int(t[1])
-        counts = [int(x) for x in t[5 + dim: 5 + 2 * dim]]
-        if not any(c == 0 for c in counts):
-            return False
-        hit = True
-    return hit
+    """No failure mode of C12 is a listed finding (D6, the 2-D zero-count panic, was repaired in /repo
+    9dd602d): a panic on a zero count is a VIOLATION again."""
+    return False
